@@ -303,7 +303,18 @@ func MatchList(name string, delim rune, reference, pattern string) bool {
 }
 
 func matchList(name, delim, pattern string) bool {
-	// TODO: optimize
+	return matchListSuffix(name, delim, pattern, make(map[[2]int]struct{}))
+}
+
+// matchListSuffix matches a suffix of the mailbox name against a suffix of the
+// pattern. failed remembers the (name suffix, pattern suffix) pairs which are
+// known not to match, identified by their lengths: without it, patterns with
+// many wildcards take exponential time.
+func matchListSuffix(name, delim, pattern string, failed map[[2]int]struct{}) bool {
+	key := [2]int{len(name), len(pattern)}
+	if _, ok := failed[key]; ok {
+		return false
+	}
 
 	i := strings.IndexAny(pattern, "*%")
 	if i == -1 {
@@ -327,10 +338,14 @@ func matchList(name, delim, pattern string) bool {
 			break // Stop on delimiter if wildcard is %
 		}
 		// Try to match the rest from here
-		if matchList(name[j:], delim, rest) {
+		if matchListSuffix(name[j:], delim, rest, failed) {
 			return true
 		}
 	}
 
-	return matchList(name[j:], delim, rest)
+	if matchListSuffix(name[j:], delim, rest, failed) {
+		return true
+	}
+	failed[key] = struct{}{}
+	return false
 }
